@@ -10,7 +10,7 @@ from __future__ import annotations
 import ast
 
 from fsa.match import is_call, is_const, kwarg, method_call
-from fsa.source import iter_own_nodes, text
+from fsa.source import Unsupported, iter_own_nodes, text
 from rules.common import Fn
 from rules import c01
 
@@ -83,10 +83,10 @@ def r2_nodes_edges(R) -> None:
         R.check(text(c.args[0]) == ln and kwarg(c, 'equation') is not None and text(kwarg(c, 'equation')) == 'e', Q, 'nodes:' + text(c),
                 'one node per left-hand term, carrying its equation', f'`{text(c)}` does not add the left-hand terms with equation=e',
                 where=f'{f.fi.module.relpath}:{c.lineno}')
-    edges = [x for x in ast.walk(f.fi.node) if method_call(x, 'add_edge')]
+    edges = [x for x in ast.walk(f.fi.node) if method_call(x, 'add_edge', 'add_edges_from')]
     if R.require(Q, len(edges), 'G.add_edge(x, n)', fi=f.fi, pred=lambda x: method_call(x, 'add_edge', 'add_edges_from')):
         c = edges[0]
-        # loop variables
+        # loop variables: enclosing for statements, and the generators of an edge comprehension
         par = {}
         for n in ast.walk(f.fi.node):
             for ch in ast.iter_child_nodes(n):
@@ -97,7 +97,15 @@ def r2_nodes_edges(R) -> None:
             if isinstance(cur, ast.For):
                 loops[text(cur.target)] = text(cur.iter)
             cur = par.get(id(cur))
-        a0, a1 = text(c.args[0]), text(c.args[1])
+        if c.func.attr == 'add_edges_from':
+            ge = c.args[0] if c.args else None
+            if not (isinstance(ge, (ast.GeneratorExp, ast.ListComp)) and isinstance(ge.elt, ast.Tuple) and len(ge.elt.elts) == 2 and not any(g_.ifs for g_ in ge.generators)):
+                raise Unsupported(f'{Q}: `{text(c)[:60]}` is not add_edges_from((source, target) for ...)')
+            for g_ in ge.generators:
+                loops[text(g_.target)] = text(g_.iter)
+            a0, a1 = text(ge.elt.elts[0]), text(ge.elt.elts[1])
+        else:
+            a0, a1 = text(c.args[0]), text(c.args[1])
         ok = loops.get(a0) == rn and loops.get(a1) == ln
         R.check(ok, Q, f'edge-direction:{loops.get(a0)}->{loops.get(a1)}', 'edges run from each right-hand term to each left-hand term (source -> defined)',
                 f'`{text(c)}` adds an edge from a term of `{loops.get(a0)}` to a term of `{loops.get(a1)}`; expected right-hand -> left-hand',
